@@ -53,10 +53,10 @@ CFG = {
         "reference decoders reject": r"^spec_decode .* => err$",
     },
     "gaps": [
-        "C13_32 is proved in full for the 32-bit checked decoder modulo two kernel facts taken as named hypotheses: "
-        "run replay through Store.insertRange + ensureCorrectStore yields a WF store or an empty array "
-        "(Kernel.runStore_wf), and BStore.tryFrom's popcount check implies the cached len (proved). See Props/C13.lean.",
-        "the RoaringTreemap decoder is handled by the treemap family",
+        'C13_no_panic and C13_reads_declared (rest is a suffix, value independent of it, shorter input is EOF) are proved in full for every byte string',
+        'C13_32_partial: ok => BitmapWF is proved modulo ONE named kernel hypothesis, Kernel.runStore_wf (replaying any run list through Store::insert_range from with_capacity and ensure_correct_store gives a WF store or the empty array); header, array chunks (sortedness, 16-bit, 1..4096), bitset chunks (1024 words < 2^64, cached len = popcount > 4096), key order and emptiness are proved. The hypothesis is checked at run time (wf= / !WF) on every decoded stream',
+        "the corollary 'every observer of a WF value is consistent' rests on C01/C03/C04/C07 (other families)",
+        'the RoaringTreemap decoder is handled by the treemap family',
     ],
     "level_text": "Lean 4 theorems over the model of the checked decoder: for every byte string the result is an error or a "
                   "well-formed value together with a suffix of the input (never a panic, never a read past the declared "
